@@ -16,10 +16,11 @@ QUICK = [
     ('h_sc1i_s6', 'reader-built root, finals'), ('h_sc1i_s7', 'reader-built root, parallel with finals'),
 ]
 THOROUGH_EXTRA = [
+    # measured on 16 cores: 7 s .. 200 s each, about 13 min together
     ('h_sc1f_s3', 'T=1 full'), ('h_sc1f_s7', 'T=1 full'), ('h_sc1f_s8', 'T=1 full'), ('h_sc1f_s10', 'T=1 full'), ('h_sc1f_s11', 'T=1 full'),
-    ('h_sc1e_s3', 'event-less'), ('h_sc1e_s5', 'event-less'), ('h_sc1e_s8', 'event-less'), ('h_sc1e_s9', 'event-less'),
+    ('h_sc1e_s3', 'event-less'), ('h_sc1e_s5', 'event-less'), ('h_sc1e_s9', 'event-less'),
     ('h_sc2r_s7', 'T=2 restricted'), ('h_sc2r_s1', 'T=2 restricted'),
-    ('h_sc2_s0', 'T=2'), ('h_sc2_s1', 'T=2'), ('h_sc2_s6', 'T=2'), ('h_sc2_s9', 'T=2'), ('h_sc2_s4', 'T=2'), ('h_sc2_s2', 'T=2'),
+    # not part of a tier (each > 5.5 min on 16 cores; they exist as harnesses): h_sc1e_s8, h_sc2_s0 .. h_sc2_s11 (two fully symbolic transitions)
 ]
 BOUNDS = {'states': '<= 11 (15 catalogue shapes: nesting <= 4, <= 2 parallel states, <= 1 history state, finals at every level)',
           'ordinary transitions': 'T = 1 (all shapes) and T = 2 (parallel shapes quick; more shapes thorough), each with symbolic source, 0..2 targets, type, event, guard outcome',
@@ -31,7 +32,7 @@ ASSUME = [
     'pre-state is an arbitrary legal configuration with an arbitrary legal history record (inductive mode); the history invariant is re-established (obligation 102)',
     'std containers modelled (Vec, HashMap as association list with arbitrary stable iteration order, Mutex with holder tracking)',
 ]
-OUTSIDE = ['shapes outside the catalogue, more than 11 states, more than two symbolic transitions', 'T = 2 on all shapes only in the thorough tier',
+OUTSIDE = ['shapes outside the catalogue, more than 11 states, more than two symbolic transitions', 'two fully symbolic transitions on one shape (h_sc2_*) are in no tier (> 5 min per shape); T = 2 is explored with the second transition restricted to its region (h_sc2r_*)',
            'guards with side effects', 'sequences longer than one microstep are covered by induction over the pre-state, not enumerated']
 
 
